@@ -172,6 +172,21 @@ static std::vector<Scenario> make_scenarios(bool thorough) {
                   Op{"corr spearman(9)", [] { return (uint64_t)(1e12 * corr(rletter(9, 121), rletter(9, 122), Correlation::Spearman)); }}},
                  {Op{"corr kendall(14)", [] { return (uint64_t)(1e12 * corr(rletter(14, 123), rletter(14, 124), Correlation::Kendall)); }}, Op{"medfilt(20,5)", [] { auto x = rletter(20, 125); return H(medfilt(x, 5)); }},
                   Op{"corr spearman(14)", [] { return (uint64_t)(1e12 * corr(rletter(14, 126), rletter(14, 127), Correlation::Spearman)); }}}}, 2);
+        // broad coverage of the remaining free functions: the same function with different sizes / parameters in two threads
+        free_fn("H2.measure-windows.t2",
+                {{Op{"snr/thd(256)", [] { arr_real x(256); for (int i = 0; i < 256; ++i) x[i] = std::sin(2 * pi * 20.3 * i / 256) + 1e-3 * lcg_val(131, (uint64_t)i); return mix((uint64_t)(1e9 * snr(x)), (uint64_t)(1e9 * thd(x).value)); }},
+                  Op{"windows(16)", [] { return mix(mix(H(window::hann(16)), H(window::tukey(16, 0.5))), mix(H(window::gauss(16, 2.5)), H(window::blackman(16)))); }},
+                  Op{"gccphat(64)", [] { auto x = rletter(64, 132); return (uint64_t)(1e9 * gccphat(delayseq(x, 5), x, 8000).tau); }}},
+                 {Op{"snr/thd(300)", [] { arr_real x(300); for (int i = 0; i < 300; ++i) x[i] = std::sin(2 * pi * 31.7 * i / 300) + 1e-3 * lcg_val(133, (uint64_t)i); return mix((uint64_t)(1e9 * snr(x)), (uint64_t)(1e9 * thd(x).value)); }},
+                  Op{"windows(23)", [] { return mix(mix(H(window::hann(23)), H(window::tukey(23, 0.3))), mix(H(window::gauss(23, 1.5)), H(window::blackman(23)))); }},
+                  Op{"gccphat(100)", [] { auto x = rletter(100, 134); return (uint64_t)(1e9 * gccphat(delayseq(x, -7), x, 8000).tau); }}}}, 2);
+        free_fn("H2.elementary-shape.t2",
+                {{Op{"upsample/cumsum(12)", [] { auto x = rletter(12, 135); return mix(mix(H(upsample(x, 3, 1)), H(cumsum(x))), mix(H(downsample(x, 2)), H(repelem(x, 2)))); }},
+                  Op{"power/exp(9)", [] { auto z = cletter(9, 136); return mix(mix(H(power(z, 2.5)), H(exp(z))), mix(H(angle(z)), H(abs(z)))); }},
+                  Op{"czt/istft", [] { auto x = rletter(40, 137); return mix(H(czt(cletter(9, 138), 11, expj(-2 * pi / 13), cmplx_t(0.9, 0.2))), H(istft(stft(x, 8), 8))); }}},
+                 {Op{"upsample/cumsum(8)", [] { auto x = rletter(8, 139); return mix(mix(H(upsample(x, 2, 0)), H(cumsum(x))), mix(H(downsample(x, 3)), H(repelem(x, 3)))); }},
+                  Op{"power/exp(14)", [] { auto z = cletter(14, 140); return mix(mix(H(power(z, -2)), H(exp(z))), mix(H(angle(z)), H(abs(z)))); }},
+                  Op{"czt/istft", [] { auto x = rletter(56, 141); return mix(H(czt(cletter(7, 142), 9, expj(-2 * pi / 11), cmplx_t(1, 0))), H(istft(stft(x, 16), 16))); }}}}, 2);
         free_fn("H2.kaiser-fir1.t2",
                 {{Op{"kaiser", [] { return H(window::kaiser(16, 5.0)); }}, Op{"fir1", [] { return H(fir1(12, 0.3)); }}},
                  {Op{"kaiser", [] { return H(window::kaiser(9, 2.0)); }},
@@ -246,6 +261,22 @@ static std::vector<Scenario> make_scenarios(bool thorough) {
                    Op{"med#1", [=] { return H((*med)->process(rletter(7, 77))); }}}};
         s.bound = 2;
         S.push_back(s);
+    }
+    {
+        // every thread builds and uses its own objects of the remaining stateful classes, with different parameters
+        auto objs = [](int v) {
+            return std::vector<Op>{
+                Op{"Compressor/Limiter", [v] { Compressor c(8000, v ? -30.0 : -6.0, 4, v ? 0.0 : 6.0, 0.001, 0.01); Limiter l(8000, v ? -20.0 : -3.0, v ? 0.0 : 4.0, 0.0, 0.002); auto x = rletter(80, 150 + (uint64_t)v);
+                                                 return mix(H(c.process(x).out), H(l.process(x).out)); }},
+                Op{"NoiseGate/Tuner/Delay", [v] { NoiseGate g(8000, v ? -30.0 : -6.0, 0.001, 0.002, 0.002); Tuner t(8, v ? 1.25 : -2.5); Delay<real_t> d(v ? 5 : 9); auto x = rletter(60, 152 + (uint64_t)v);
+                                                    return mix(mix(H(g.process(x).out), H(t.process(cletter(40, 154 + (uint64_t)v)))), H(d.process(x))); }},
+                Op{"HilbertFilter/Lms/Rls", [v] { HilbertFilter h(v ? 31 : 21, 0.05); LmsFilterR f(v ? 4 : 3, 0.05, LmsType::NLMS, 0.999); RlsFilterR r(v ? 4 : 3, v ? 0.9 : 0.99, 1.0); auto x = rletter(60, 156 + (uint64_t)v);
+                                                    auto dd = rletter(60, 158 + (uint64_t)v); return mix(mix(H(h.process(x)), H(f.process(x, dd).e)), H(r.process(x, dd).e)); }},
+                Op{"PreambleDetector/FftFilter", [v] { auto pr = cletter(v ? 16 : 12, 160 + (uint64_t)v); PreambleDetector pd(pr, 0.5); arr_cmplx sgn((int)pd.frame_len());
+                                                         for (int i = 0; i < pr.size() && 3 + i < sgn.size(); ++i) sgn[3 + i] = pr[i];
+                                                         auto res = pd.process(sgn); FftFilter ff(rletter(v ? 9 : 5, 162 + (uint64_t)v)); return mix(res ? (uint64_t)res->offset + 1 : 0, H(ff.process(rletter(64, 164 + (uint64_t)v)))); }}};
+        };
+        free_fn("H4.own-objects-all-classes.t2", {objs(0), objs(1)}, 1);
     }
     (void)thorough;
     return S;
